@@ -17,7 +17,8 @@ class Mismatch(Exception):
 def transcribe(B):
     ocp = B.ocp
     ocp.sample(ocp.t, grid="control")  # public call that forces transcription
-    return ocp._method.opti
+    master = getattr(B, "master", None) or ocp
+    return master._method.opti
 
 
 def quantities(B, case):
@@ -84,14 +85,14 @@ class Observed:
     pass
 
 
-def observe(B, case, extras=None):
+def observe(B, case, extras=None, qs_fn=None):
     """extras: optional function (B, case) -> list of MX read-back expressions that are
-    evaluated together with the NLP (ob.extra_f)"""
+    evaluated together with the NLP (ob.extra_f); qs_fn: replaces `quantities` (multi-stage)"""
     import casadi as ca
     opti = transcribe(B)
     ob = Observed()
     ob.opti = opti
-    qs = quantities(B, case)
+    qs = (qs_fn or quantities)(B, case)
     ob.qnames = [(n, e.shape) for n, e in qs]
     stack = ca.veccat(*[e for _, e in qs]) if qs else ca.MX(0, 1)
     ex = list(extras(B, case)) if extras else []
@@ -129,8 +130,12 @@ def observe(B, case, extras=None):
 
 def flatten_point(ob, point):
     """stack the semantic values of `point` in the order of ob.qnames (column major)"""
+    return flatten_q(ob.qnames, point)
+
+
+def flatten_q(qnames, point):
     vals = []
-    for name, shape in ob.qnames:
+    for name, shape in qnames:
         v = point[name]
         if name in ("T", "t0"):
             vals.append(float(Fr(v)))
